@@ -101,6 +101,13 @@ def build_frames(st, perturb, field, kind='hex', rng=None, scale=1.0):
                     rows += [(eid * 10 + 1000 + t, conn[a]) for a in tet]
             else:
                 rows += [(eid, n) for n in conn]
+    if st['roworder'] == 'interleaved':
+        # rows of different elements interleaved (round robin), the node order inside each element kept
+        groups = {}
+        for e_, n_ in rows:
+            groups.setdefault(e_, []).append((e_, n_))
+        gl = list(groups.values())
+        rows = [g_[j] for j in range(max(len(g_) for g_ in gl)) for g_ in gl if j < len(g_)]
     if st['roworder'] == 'reversed':
         # reverse the order of the elements, keep the node order inside each element (it is the connectivity)
         groups = []
@@ -132,10 +139,13 @@ def check_meshops(st, fs, known):
             if kind == 'mixed' and len(st['out']['elems']) < 2:
                 continue
             # the second field is also evaluated on the same mesh expressed in a 4096 times larger length unit (element edges of 2.4e-4)
-            for field, scale in [(fields[0], 1.0), (fields[1], 1.0), (fields[1], 2.0 ** -12)]:
-                df, nodes, xyz = build_frames(st, True, field, kind, scale=scale)
+            variants = [(fields[0], 1.0, True), (fields[1], 1.0, True), (fields[1], 2.0 ** -12, True)]
+            if st['roworder'] == 'interleaved':
+                variants.append((fields[1], 1.0, False))      # the regular, unperturbed grid: a scrambled node order inside an element makes corner Jacobians singular there
+            for field, scale, pert in variants:
+                df, nodes, xyz = build_frames(st, pert, field, kind, scale=scale)
                 g = field[0]
-                case = {**case0, 'elements': kind, 'gradient': list(g), 'length_scale': scale}
+                case = {**case0, 'elements': kind, 'gradient': list(g), 'length_scale': scale, 'perturbed_nodes': pert}
                 try:
                     gr = df.gradient_3D.gradient_of('f')
                     if set(gr.index) != set(nodes) or not close(gr.to_numpy(), np.tile(g, (len(gr), 1))):
@@ -143,7 +153,7 @@ def check_meshops(st, fs, known):
                 except Exception as ex:
                     v.append(('gradient_3D raised %r' % ex, case, None, None))
                 # kept accessor objects asked again for another field of the same frame: as a fresh accessor (no field/geometry state carried)
-                if scale == 1.0 and field is fields[1]:
+                if scale == 1.0 and field is fields[1] and pert:
                     try:
                         acc3, accl = df.gradient_3D, df.gradient
                         acc3.gradient_of('f'); accl.gradient_of('f')
@@ -184,6 +194,16 @@ def check_meshops(st, fs, known):
             try:
                 same = src[['x', 'y', 'z']].copy()
                 r = same.meshmapper.process(src, 'f')
+                # one kept mapper object, a second source of the same size (shifted points, another linear field): as a fresh mapper
+                mapper = same.meshmapper
+                mapper.process(src, 'f')
+                src2 = src.copy()
+                src2[['x', 'y', 'z']] = src2[['x', 'y', 'z']].to_numpy() * 1.5 + 0.25
+                src2['f'] = 4.0 * src2.x + 1.0 * src2.y - 2.0 * src2.z + 3.0
+                r_kept = mapper.process(src2, 'f')
+                r_fresh = same.copy().meshmapper.process(src2, 'f')
+                if not (np.array_equal(np.isnan(r_kept['f'].to_numpy()), np.isnan(r_fresh['f'].to_numpy())) and close(np.nan_to_num(r_kept['f'].to_numpy()), np.nan_to_num(r_fresh['f'].to_numpy()))):
+                    v.append(('a kept mesh mapper asked to map a second source answers differently from a fresh mapper', case, r_fresh['f'].tolist()[:4], r_kept['f'].tolist()[:4]))
                 if not close(r['f'].to_numpy(), src['f'].to_numpy()) or list(r.index) != list(same.index):
                     v.append(('mapping a mesh field onto the same points does not return the field', case, None, None))
                 if min(d) >= 1:
@@ -251,6 +271,23 @@ def run(chk):
         chk.cov['traces_validated_against_impl'] += tot
         chk.part('hotspot', fields=tot)
         os.remove(res.dump_path)
+    for extra in (('MC_Hotspot_neg.cfg',) if quick else ('MC_Hotspot_neg.cfg', 'MC_Hotspot_mixed.cfg')):
+        res = tlc.run(HS_TLA, os.path.join(SPEC, 'mesh', extra), dump=True, timeout=3000, heap='12g')
+        chk.tlc(extra, res, 'region growing = connected components on fields whose maximum is not positive / of mixed sign')
+        if res.violated:
+            chk.machinery.append('model invariant %s violated: %s' % (res.violated, res.trace[-1:]))
+        if res.dump_path and os.path.exists(res.dump_path):
+            tot = 0
+            for n, nontriv, viol, samples in par.pmap(_replay_hotspot, [(p, chk.seed * 100 + 50 + i) for i, p in enumerate(par.split_dump(res.dump_path, 32))], chunksize=1):
+                tot += n
+                for x in nontriv:
+                    chk.nontrivial(x)
+                for what, case, exp, got in viol:
+                    chk.violation(what, case, exp, got, part='hotspot_nonpositive')
+            chk.evals(tot)
+            chk.cov['traces_validated_against_impl'] += tot
+            chk.part('hotspot_' + extra, fields=tot)
+            os.remove(res.dump_path)
     res = tlc.run(MO_TLA, os.path.join(SPEC, 'mesh', 'MC_MeshOps_%s.cfg' % tier), dump=True, timeout=3000)
     chk.tlc('MC_MeshOps_%s.cfg' % tier, res, 'block meshes x node numbering x element numbering x row order; boundary node set')
     if res.violated:
